@@ -50,11 +50,22 @@ def run(tier, seed):
         with open(res.exports["CAPI"], "a") as f:
             for r in pairs:
                 f.write(json.dumps(r) + "\n")
+    else:
+        # thorough: every pair, plus a sample of the triples (a call menu of 47 calls: 4 x 47^3 scenarios)
+        c3 = {"ExportOn": True, "MaxCalls": 3}
+        cfg3 = vlib.write_cfg(os.path.join(ctx.work, "capi3.cfg"), c3, ["ErrorChannelSound", "Total", "Export"])
+        res3 = ctx.tlc("CApi", cfg3, name="capi3", tags=("CAPI",), seed=seed)
+        import json, random
+        rnd = random.Random(seed)
+        with open(res.exports["CAPI"], "a") as f:
+            for r in vlib.read_ndjson(res3.exports["CAPI"]):
+                if rnd.random() < 0.03:
+                    f.write(json.dumps(r) + "\n")
     ac.replay(ctx, res.exports["CAPI"], cmd="capi-replay", sig_prefix="replay:capi", describe=describe)
     return ctx.finish(
         rule="CApi.tla: handle table + error channel; after a fixed setup (2-block token: root key of the scenario's algorithm, block key of the scenario's block algorithm) every call of a 32-call menu (serialize / "
              "serialize_sealed with size query, block_count, block_context and print_block_source with every index in 0..n+1, print, authorize, key pair and public key round "
-             "trips, from_bytes, append_block, authorizer creation, builder_build; each with a live and a null handle), singly and in pairs (error-channel persistence), for both "
+             "trips, from_bytes, append_block, authorizer creation, builder_build; each with a live and a null handle, the token calls also on a sealed token), singly and in pairs (thorough: all pairs and 3 % of the triples) (error-channel persistence), for both "
              "signature algorithms. Invariants ErrorChannelSound, Total. Each scenario runs in a child process calling the real extern \"C\" functions: outcome class, error kind, "
              "announced = written size, canaries, and equality with the same operation through the Rust API (bytes, keys, printed sources).")
 
